@@ -205,10 +205,31 @@ def rule_ledger(ctx):
                     where[k] = (fn["file"], t["line"])
                     where[("fn",) + k] = fn["pretty"]
     ctx.table("panic sites", ["%dx %s [%s]" % (v, k[0], k[1]) for k, v in sorted(psites.items())])
-    for k, v in sorted(psites.items()):
-        ent = PANIC_LEDGER.get(k)
-        ctx.check(R2, "%s/%s!" % k, ent is not None, ("discharged by: " + ent) if ent else "explicit panic reachable from main without a ledger entry (%d site(s)): if an input can reach it the tool aborts instead of reporting" % v, where[k])
+    def module_of(pretty):
+        """the module part of a function's path: leading lower-case segments"""
+        segs = []
+        for sg in re.sub(r"<[^<>]*(?:<[^<>]*>[^<>]*)*>", "", pretty).split("::"):
+            if sg and (sg[0].islower() or sg[0] == "_"):
+                segs.append(sg)
+            else:
+                break
+        return "::".join(segs[:-1]) if len(segs) > 1 and len(segs) == len([x for x in pretty.split("::")]) else "::".join(segs)
+
     stale = [k for k in PANIC_LEDGER if k not in psites]
+    moved_from = {}
+    free_stale = list(stale)
+    for k, v in sorted(psites.items()):
+        if k in PANIC_LEDGER or v != 1:
+            continue
+        # a reviewed site that left its function for another one of the same module (a helper was extracted, or inlined)
+        for k0 in free_stale:
+            if k0[1] == k[1] and module_of(k0[0]) == module_of(k[0]) and module_of(k[0]):
+                moved_from[k] = k0
+                free_stale.remove(k0)
+                break
+    for k, v in sorted(psites.items()):
+        ent = PANIC_LEDGER.get(k) or (("moved within the module from %s; " % moved_from[k][0] + PANIC_LEDGER[moved_from[k]]) if k in moved_from else None)
+        ctx.check(R2, "%s/%s!" % k, ent is not None, ("discharged by: " + ent) if ent else "explicit panic reachable from main without a ledger entry (%d site(s)): if an input can reach it the tool aborts instead of reporting" % v, where[k])
     ctx.note("ledger entries without a site on this tree (code removed or renamed): %s" % stale)
     ctx.floor(R2, "ledgered panic sites present", len(PANIC_LEDGER) - len(stale), 20)
     for k, v in sorted(rsites.items()):
